@@ -73,7 +73,7 @@ Proof. vm_compute. reflexivity. Qed.
 (* checkGlueRR: the same bailiwick test, host test and address filter in the AAAA and the A pass *)
 Lemma gen_check_glue_shape : src_check_glue = map s2b [
   "if r.cfg.IPv6Access {";
-  "if extra, ok := a.(*dns.AAAA); ok {";
+  "if extra, ok := a.(" ++ "*dns.AAAA); ok {";
   "name := strings.ToLower(extra.Header().Name)";
   "qname := resp.Question[0].Name";
   "i, _ := dns.PrevLabel(qname, level)";
@@ -84,7 +84,7 @@ Lemma gen_check_glue_shape : src_check_glue = map s2b [
   "if !valid {";
   "continue";
   "if _, ok := seenServers[endpoint]; !ok {";
-  "if extra, ok := a.(*dns.A); ok {";
+  "if extra, ok := a.(" ++ "*dns.A); ok {";
   "name := strings.ToLower(extra.Header().Name)";
   "qname := resp.Question[0].Name";
   "i, _ := dns.PrevLabel(qname, level)";
@@ -128,7 +128,7 @@ Lemma gen_cacheable_keep_shape : src_cacheable_keep = map s2b [
   "strings.EqualFold(res.Question[0].Name, r.Header().Name) {";
   "return true";
   "}";
-  "rrsig, ok := r.(*dns.RRSIG)";
+  "rrsig, ok := r.(" ++ "*dns.RRSIG)";
   "return ok && rrsig.TypeCovered == dns.TypeDNAME" ].
 Proof. vm_compute. reflexivity. Qed.
 
